@@ -718,6 +718,7 @@ impl<'a> Cx<'a> {
         match e {
             syn::Expr::Paren(p) => self.lower_seq(&p.expr),
             syn::Expr::Group(p) => self.lower_seq(&p.expr),
+            syn::Expr::Range(r) if self.raw_mode => self.lower_range_seq(r),
             syn::Expr::Path(p) if p.path.get_ident().is_some() => {
                 let x = p.path.get_ident().unwrap().to_string();
                 match self.lookup(&x) {
